@@ -19,6 +19,7 @@ import urllib.request
 from pathlib import Path
 
 import core
+import workflow
 
 POOL = {"A": ["MIT", "GPL-2.0", "Apache-2.0", "Nonexistent-1.0"], "B": ["0BSD", "CC0-1.0", "EUPL-1.2", "LGPL-2.1"],
         "LicenseRef-r": ["LicenseRef-custom", "LicenseRef-My.Own-1"]}
@@ -218,8 +219,11 @@ def run(ctx: core.Ctx) -> int:
                 r["detail"] = json.loads(r["detail"])
             except ValueError:
                 pass
+    # Workflow.tla: cross-command behaviours replayed on the real tool, abstract state compared after every command
+    wf = workflow.stage(ctx, ('C19.', 'crash'))
+    mc_viol = list(mc_viol) + wf["mc_violations"]
     return ctx.finish(
-        evaluations=len(events),
+        evaluations=len(events) + len(wf["events"]),
         distinct_nontrivial=len({e["label"] for e in events if e["exit"] != 0 or e["netlog"]}),
         rule="Download.tla initial states: pre-existing LICENSES/ entries x request set over {licence, licence, LicenseRef-} x "
              "network outcome per identifier {ok, HTTP error, connection error} x --source (quick: seeded sample of 700), "
@@ -230,4 +234,6 @@ def run(ctx: core.Ctx) -> int:
 
 
 def replay(ctx: core.Ctx, path: str) -> int:
+    if str(json.load(open(path)).get("runner", "")).startswith("workflow:"):
+        return core.generic_replay(ctx, path)
     return core.generic_replay(ctx, path)
